@@ -5,7 +5,9 @@
 // checked against the `nostd` field of every case.
 //
 // Input line:  R <fmt> <nostd> <chans> <first> <N> ; <N*chans init window bit patterns> ; op , op ...
-//   fmt 0 f32, 1 f64 (samples = bit patterns), 2 i16, 3 u8 (samples = values)
+//   fmt 0 f32, 1 f64 (samples = bit patterns), 2 i16, 3 u8 (samples = values),
+//   10..21 = i8 i16 I24 i32 I48 i64 u8 u16 U24 u32 U48 u64 (samples = values; 1 or 2 channels)
+// Input line `P`: probe, prints `6 <build_nostd()>`.
 //   op: n v.. (next)  q v.. (next_squared)  c (current)  r (reset)  w (observe the window)
 // Output: per op `2 out-bits..` (reset: `7`; w: `5 window..`) ; `3 square_sum-bits..` (clone().into_parts());
 //   at the end `5 window..` (iteration order, flattened) ; `4 window_frames`;
@@ -30,6 +32,20 @@ fn s_f64(v: i128) -> f64 { f64::from_bits(v as u64) }
 fn s_i16(v: i128) -> i16 { v as i16 }
 #[allow(dead_code)]
 fn s_u8(v: i128) -> u8 { v as u8 }
+fn s_i8(v: i128) -> i8 { v as i8 }
+fn s_i32(v: i128) -> i32 { v as i32 }
+fn s_i64(v: i128) -> i64 { v as i64 }
+fn s_u16(v: i128) -> u16 { v as u16 }
+fn s_u32(v: i128) -> u32 { v as u32 }
+fn s_u64(v: i128) -> u64 { v as u64 }
+fn s_i24(v: i128) -> dasp_sample::I24 { dasp_sample::I24::new(v as i32).expect("I24 range") }
+fn s_u24(v: i128) -> dasp_sample::U24 { dasp_sample::U24::new(v as i32).expect("U24 range") }
+fn s_i48(v: i128) -> dasp_sample::I48 { dasp_sample::I48::new(v as i64).expect("I48 range") }
+fn s_u48(v: i128) -> dasp_sample::U48 { dasp_sample::U48::new(v as i64).expect("U48 range") }
+
+pub fn run_probe() -> String {
+    ob(6, &[build_nostd() as u64])
+}
 
 /// 1 when dasp_sample was built without `std` (sample_sqrt is the bit trick: sqrt(2.0) = 1.5), else 0
 pub fn build_nostd() -> i128 {
@@ -135,6 +151,27 @@ driver!(r_u8_2, u8, f32, 2, s_u8, bits32, s_f32);
 driver!(r_u8_3, u8, f32, 3, s_u8, bits32, s_f32);
 driver!(r_u8_4, u8, f32, 4, s_u8, bits32, s_f32);
 
+driver!(g_i8_1, i8, f32, 1, s_i8, bits32, s_f32);
+driver!(g_i8_2, i8, f32, 2, s_i8, bits32, s_f32);
+driver!(g_i24_1, dasp_sample::I24, f32, 1, s_i24, bits32, s_f32);
+driver!(g_i24_2, dasp_sample::I24, f32, 2, s_i24, bits32, s_f32);
+driver!(g_i32_1, i32, f32, 1, s_i32, bits32, s_f32);
+driver!(g_i32_2, i32, f32, 2, s_i32, bits32, s_f32);
+driver!(g_i48_1, dasp_sample::I48, f64, 1, s_i48, bits64, s_f64);
+driver!(g_i48_2, dasp_sample::I48, f64, 2, s_i48, bits64, s_f64);
+driver!(g_i64_1, i64, f64, 1, s_i64, bits64, s_f64);
+driver!(g_i64_2, i64, f64, 2, s_i64, bits64, s_f64);
+driver!(g_u16_1, u16, f32, 1, s_u16, bits32, s_f32);
+driver!(g_u16_2, u16, f32, 2, s_u16, bits32, s_f32);
+driver!(g_u24_1, dasp_sample::U24, f32, 1, s_u24, bits32, s_f32);
+driver!(g_u24_2, dasp_sample::U24, f32, 2, s_u24, bits32, s_f32);
+driver!(g_u32_1, u32, f32, 1, s_u32, bits32, s_f32);
+driver!(g_u32_2, u32, f32, 2, s_u32, bits32, s_f32);
+driver!(g_u48_1, dasp_sample::U48, f64, 1, s_u48, bits64, s_f64);
+driver!(g_u48_2, dasp_sample::U48, f64, 2, s_u48, bits64, s_f64);
+driver!(g_u64_1, u64, f64, 1, s_u64, bits64, s_f64);
+driver!(g_u64_2, u64, f64, 2, s_u64, bits64, s_f64);
+
 pub fn nums(s: &str) -> Vec<i128> {
     s.split_whitespace().map(|t| t.parse::<i128>().expect("int token")).collect()
 }
@@ -163,6 +200,12 @@ pub fn run_r(line: &str) -> String {
         (1, 1) => r_f64_1, (1, 2) => r_f64_2, (1, 3) => r_f64_3, (1, 4) => r_f64_4,
         (2, 1) => r_i16_1, (2, 2) => r_i16_2, (2, 3) => r_i16_3, (2, 4) => r_i16_4,
         (3, 1) => r_u8_1, (3, 2) => r_u8_2, (3, 3) => r_u8_3, (3, 4) => r_u8_4,
+        (10, 1) => g_i8_1, (10, 2) => g_i8_2, (11, 1) => r_i16_1, (11, 2) => r_i16_2,
+        (12, 1) => g_i24_1, (12, 2) => g_i24_2, (13, 1) => g_i32_1, (13, 2) => g_i32_2,
+        (14, 1) => g_i48_1, (14, 2) => g_i48_2, (15, 1) => g_i64_1, (15, 2) => g_i64_2,
+        (16, 1) => r_u8_1, (16, 2) => r_u8_2, (17, 1) => g_u16_1, (17, 2) => g_u16_2,
+        (18, 1) => g_u24_1, (18, 2) => g_u24_2, (19, 1) => g_u32_1, (19, 2) => g_u32_2,
+        (20, 1) => g_u48_1, (20, 2) => g_u48_2, (21, 1) => g_u64_1, (21, 2) => g_u64_2,
         _ => panic!("unsupported fmt/chans"),
     };
     f(first, n, &init, &ops).join(";")
